@@ -1,6 +1,7 @@
 #include "printing.hpp"
 #include "interp_util.hpp"
 
+#include <atomic>
 #include <condition_variable>
 #include <mutex>
 #include <pthread.h>
@@ -26,12 +27,13 @@ struct GuardBuf : std::streambuf {
    std::string data;
    const char* base = nullptr;
    std::size_t max_depth = 0;
+   std::size_t limit = depth_limit;
    void check()
    {
       char probe;
       const std::size_t depth = std::size_t(base > &probe ? base - &probe : &probe - base);
       if (depth > max_depth) max_depth = depth;
-      if (depth > depth_limit) throw Runaway{"stack depth"};
+      if (depth > limit) throw Runaway{"stack depth"};
       if (data.size() > byte_budget) throw TooBig{};
    }
    int_type overflow(int_type c) override
@@ -47,6 +49,16 @@ struct GuardBuf : std::streambuf {
       return n;
    }
 };
+
+}   // namespace
+
+std::atomic<bool>& inline_printing()
+{
+   static std::atomic<bool> flag{false};
+   return flag;
+}
+
+namespace {
 
 struct Job {
    const Lexicon* lex;
@@ -70,6 +82,7 @@ void* run_job(void* p)
    GuardBuf buf;
    char anchor;
    buf.base = &anchor;
+   if (inline_printing().load()) buf.limit = std::size_t(2) << 20;   // on the caller's ordinary stack
    std::ostream os(&buf);
    os.exceptions(std::ios::badbit | std::ios::failbit);
    const std::string before = state_of(os);
@@ -291,6 +304,10 @@ PrintResult guarded_print(const Lexicon& lex, PrintWhat what, const void* target
 {
    PrintResult r;
    Job j{&lex, what, target, locations, &r};
+   if (inline_printing().load()) {
+      run_job(&j);
+      return r;
+   }
    thread_local Worker worker;
    worker.run(j);
    return r;
